@@ -631,6 +631,30 @@ impl Scenario for Roundtrip {
                         ops.push(Op::StartFile { name: "after".into(), o: Opts::default() });
                         ops.push(Op::Write { c: Content::Lit(Hex(b"tail".to_vec())), split: vec![] });
                     }
+                    24 | 25 => {
+                        // the entry that crosses 4 GiB is started through the aligned / extra-data calls (the per-entry
+                        // accounting is set up in start_entry and touched again when the extra-data phase ends)
+                        start_pos = 0;
+                        let o = Opts { method: 0, large: true, ..Opts::default() };
+                        if r.chance(1, 2) {
+                            ops.push(Op::StartFile { name: "head".into(), o: Opts::default() });
+                            ops.push(Op::Write { c: Content::Lit(Hex(b"head".to_vec())), split: vec![] });
+                        }
+                        if slot == 24 {
+                            ops.push(Op::StartAligned { name: "big-aligned".into(), o, align: r.pickc(&[4096u16, 64, 512, 3]) });
+                        } else {
+                            ops.push(Op::StartExtra { name: "big-extra".into(), o });
+                            ops.push(Op::Write { c: Content::Lit(Hex(vec![0xef, 0xbe, 4, 0, 1, 2, 3, 4])), split: vec![] });
+                            if r.chance(1, 2) {
+                                ops.push(Op::EndLocal);
+                                ops.push(Op::Write { c: Content::Lit(Hex(vec![0xad, 0xde, 2, 0, 9, 9])), split: vec![] });
+                            }
+                            ops.push(Op::EndExtra);
+                        }
+                        ops.push(Op::Write { c: Content::Sparse { len: G4 + 1 + r.below(3), seed: r.below(1000) }, split: vec![] });
+                        ops.push(Op::StartFile { name: "after".into(), o: Opts::default() });
+                        ops.push(Op::Write { c: Content::Lit(Hex(b"tail".to_vec())), split: vec![] });
+                    }
                     17 if tier == Tier::Thorough => {
                         ops.extend(big(5 * (1 << 30), true, 0, &mut r));
                         start_pos = 0;
